@@ -413,12 +413,20 @@ pub fn run(args: &[String]) {
         let mut case = Case::new("oneshot-names".into());
         let total = if thorough { 20_000 } else { 3_000 };
         let mut seen = std::collections::HashSet::new();
+        // Consecutive servers: the earlier ones are gone, so the temp-dir generator may legitimately hit an old name again — with
+        // its default of 6 random characters (62^6 names) that happens in about 1 of 300 thorough runs (birthday bound), once.
+        // Three or more repeats among these names cannot be chance (p < 1e-7); a generator with a small name space (3 characters:
+        // ~19 repeats expected in 3 000 names) is far above that.
+        let mut repeats = 0usize;
+        let mut first_repeat = String::new();
         for k in 0..total {
             match IpcOneShotServer::<u64>::new() {
                 Ok((_s, name)) => {
                     if !seen.insert(name.clone()) {
-                        case.fail(format!("server #{} was given the name {} that an earlier server of this process had", k, name));
-                        break;
+                        repeats += 1;
+                        if first_repeat.is_empty() {
+                            first_repeat = format!("server #{} was given the name {} again", k, name);
+                        }
                     }
                 },
                 Err(e) => {
@@ -427,11 +435,18 @@ pub fn run(args: &[String]) {
                 },
             }
         }
+        if repeats >= 3 {
+            case.fail(format!("{} of {} consecutive servers were given a name an earlier server of this process had ({}): the names are drawn from too small a space",
+                              repeats, total, first_repeat));
+        }
+        case.tags.push(format!("name_repeats_over_time={}", repeats));
+        // servers alive at the same time: never the same name (the directory exists), whatever the generator
         let mut alive = Vec::new();
+        let mut live_names = std::collections::HashSet::new();
         for _ in 0..200 {
             if let Ok((s, name)) = IpcOneShotServer::<u64>::new() {
-                if !seen.insert(name.clone()) {
-                    case.fail(format!("a live server was given an already used name {}", name));
+                if !live_names.insert(name.clone()) {
+                    case.fail(format!("two servers alive at the same time were given the name {}", name));
                 }
                 alive.push(s);
             }
